@@ -38,4 +38,4 @@ def correspond(ctx):
 
 
 def replay(ctx, obj):
-    return lanes.replay_parts(ctx, obj, {"lanes": lanes.replay, "root": c01_root.replay, "slane": c01_slane.replay})
+    return lanes.replay_parts(ctx, obj, {"lanes": lanes.replay, "words": lanewords.replay, "root": c01_root.replay, "slane": c01_slane.replay})
